@@ -132,5 +132,12 @@ $MK C03_day "C03 (one day) — if every process preserves in_bounds and the pond
 $MK C04_day "C04/C05/C13 (off-season wiring) — outside a growing season the orchestration itself writes IrrDay = 0, DryYield = FreshYield = 0, gdd_cum = 0, dap = 0 and hands gs = false to every process (Day.v, every Procs)." "$DAYREQ" off_season_wiring day_step_off_season
 $MK C06_day "C06 (rows and summary) — in the crop-growth row written by the day: DryYield = B/100*HIadj, FreshYield = DryYield/(YldWC/100), YieldPot = B_ns/100*HI; the summary row repeats exactly those values and the seasonal irrigation counter (Day.v, every Procs)." "$DAYREQ" DayP.yield_identities=row_yield_identities summary_values day_step_summary row_wiring
 $MK C08_day "C08 (reset and dead fields) — the reset assigns exactly the fields of the regenerated reset list and leaves every other field unchanged; the first day of a season does not depend on the 19 carried fields that are blanked by proj (under four named per-process hypotheses) (Day.v)." "$DAYREQ" reset_fields_match reset_frame reset_restores_water start_season_clock proj_list_carried carried_ok_proj_or_live proj_frame day1_dead
+DAYC="$DAYREQ
+From AC.Crop Require Import Yield.
+From AC Require Import DayConcrete.
+From AC.proofs Require Import YieldR DayConcreteP."
+$MK C01_concrete "C01 (one CONCRETE day) — Day.v's orchestration instantiated with the 19 unit process models (DayConcrete.v, bit-exact against real simulated days): under the day invariant DayInv alone, a defined day closes the water balance with the capillary-rise rounding allowance." "$DAYC" day_balance_concrete concrete_calls_balance day_proc_opt_total
+$MK C03_concrete "C03 (one CONCRETE day) — under DayInv and the five named side conditions DaySide, a defined concrete day keeps water contents within [th_dry, th_s], ponding within [0, bund height in force], and re-establishes DayInv (so induction over days closes)." "$DAYC" day_bounds_concrete reset_inv_preserved
+$MK C04_concrete "C04/C05 (off-season, CONCRETE day) — outside a growing season the concrete day reports zero transpiration, potential transpiration and irrigation, zero canopy, biomass, rooting depth, harvest index and yields." "$DAYC" off_season_concrete
 $MK C12_day "C12 (frame) — the reset changes only the listed state fields; parameters, profile and weather are inputs of day_proc that do not occur in its result type." "$DAYREQ" reset_frame reset_frame_off_season reset_fields_match ;;&
 esac
